@@ -112,4 +112,8 @@ struct SimKnobs
 };
 void draw_run_config(Rng &fl, const SimKnobs &k, RunConfig &rc);
 
+// 1 for the quick tier, 2 for thorough: generators widen their ranges (more tasks, longer
+// programs, larger knobs) in half of the runs of a thorough check.
+int tier_scale();
+
 }  // namespace vsim
